@@ -768,10 +768,10 @@ func (r *vc08Run) run(ops []*vc08Op) {
 		}()
 		select {
 		case <-done:
-		case <-time.After(40 * time.Second):
+		case <-time.After(90 * time.Second):
 			op.Xs, op.Is, op.Ws = []uint32{}, []uint32{}, []uint32{}
 			op.Quiet = true
-			r.emit(op, "hang:"+op.Op, "FAIL:operation-did-not-terminate:"+op.Op+" did not return within 40s")
+			r.emit(op, "hang:"+op.Op, "FAIL:operation-did-not-terminate:"+op.Op+" did not return within 90s")
 			r.ops.Flush()
 			r.impl.Flush()
 			r.orc.Flush()
@@ -924,14 +924,14 @@ func (r *vc08Run) exec(op *vc08Op) {
 			}
 			r.st.IncorrectStateDetected()
 			r.st.IncorrectStateDetected()
-			deadline := time.Now().Add(6 * time.Second)
+			deadline := time.Now().Add(25 * time.Second)
 			for {
 				x, _ := r.st.XOR(MaxLamportClock)
 				if x == want {
 					break
 				}
 				if time.Now().After(deadline) {
-					tag = "liveRepair:not-repaired-within-6s"
+					tag = "liveRepair:not-repaired-within-25s"
 					break
 				}
 				time.Sleep(time.Millisecond)
